@@ -346,10 +346,90 @@ def run(ctx, deep=False):
         ctx.violation(key, "AirTouch %d %s %d %s(%s): %s (frame %s; vendor reading: %s)" % (gen, target, ident, method, ", ".join(args), why, fr, s[:300]),
                       kind="input", call=[gen, ci, target, ident, method, args], implementation_output=fr, spec_verdict=why)
     concurrent(ctx)
+    status_then_call(ctx)
     if metas:
         ctx.sample({"call": [str(x) for x in metas[0][:6]], "frame": metas[0][9].hex(), "vendor_reading": spec[0][:200]})
     ctx.assumptions += ["quick-timer control messages are not in the vendor documents (reverse-engineered upstream): only their addressing, length and check bytes are judged here; their content is covered by C11/C03",
                         "Python's round() is used as is by the intended-meaning computation (same interpreter)"]
+
+
+def status_then_call(ctx):
+    """AirTouch 5, distinct heat / cool limits: the console reports a change of mode (COOL -> HEAT, with an error code, so the client has a
+    request of its own to send) while the link is congested; a few loop passes later the application sets a temperature that only the
+    old mode admits.  The frame carries what the limits of the mode LAST REPORTED allow."""
+    import asyncio
+    import consolesim
+    import fullstack
+    from vloop import TICK
+    inst = dict(acs=[dict(id=0, modes=0x1F, fans=0xFF, lo=18, hi=32, lo_heat=16, hi_heat=28, zones=[0, 1], mode=4)],
+                zones={0: dict(sensor=True, ctrl=1), 1: dict(sensor=False)})
+    for passes in (4, 5, 8):        # (the report has been handed to the client's handler by then: two passes are enough on the unchanged code)
+        for err in (0, 5):
+            env = fullstack.Env(5, dict(inst=inst))
+            loop = env.loop
+            loop.max_passes = 500000
+            wire = bytearray()
+            state = {"mark": None}
+
+            def on_net(e, wire=wire, state=state):
+                if e[0] == "write" and state["mark"] is not None:
+                    wire.extend(e[3])
+            env.net.listeners.append(on_net)
+
+            async def main(env=env, state=state, passes=passes, err=err):
+                if not await env.at.init():
+                    return False
+                await asyncio.sleep(4 * TICK)
+                conn = env.net.conns[-1]
+                ac = list(env.at.air_conditioners)[0]
+                conn.block_writes()
+                w = consolesim.at5_ac_status([dict(id=0, power=1, mode=1, fan=0, setpoint=120, temp=235, err=err)]).split()
+                conn.peer_send(env.frame(int(w[1], 16), bytes.fromhex(w[2])))
+                for _ in range(passes):
+                    await asyncio.sleep(0)
+                state["mark"] = 0
+                state["mode_at_call"] = ac.selected_mode.name
+                t = loop.create_task(ac.set_target_temperature(31.0))
+                await asyncio.sleep(0)
+                await asyncio.sleep(0)
+                conn.unblock_writes()
+                await asyncio.gather(t, return_exceptions=True)
+                await asyncio.sleep(4 * TICK)
+                state["mark"] = None
+                state["mode"] = ac.selected_mode.name
+                await env.at.shutdown()
+                return True
+            asyncio.set_event_loop(loop)
+            try:
+                ok = loop.run_until_complete(main())
+            finally:
+                asyncio.set_event_loop(None)
+                loop.close()
+            ctx.case(("status-then-call", passes, err))
+            if not ok:
+                ctx.tie_broken("C04:console-script", "the full-stack console no longer initialises the AirTouch 5 object")
+                continue
+            data = bytes(wire)
+            # the AC control frames (0xC0 / 0x22) in what was written after the call
+            payloads = []
+            i = 0
+            while i + 20 <= len(data):
+                if data[i:i + 4] == bytes([0x55, 0x55, 0x55, 0xAB]):
+                    ln = data[i + 18] << 8 | data[i + 19]
+                    if data[i + 17] == 0xC0 and data[i + 20:i + 21] == b"\x22":
+                        payloads.append(data[i + 20:i + 20 + ln])
+                    i += 20 + ln + 2
+                else:
+                    i += 1
+            reads = [parse(x)[0] for x in ctx.oracle(["spec 5 C022 %s" % p.hex() for p in payloads])] if payloads else []
+            sp = [r.get("setpoint") for r in reads]
+            ctx.count("status-then-call:%s:shown-at-call=%s" % ("ok" if sp == ["set(280)"] else "differs", state.get("mode_at_call")))
+            if state.get("mode") == "HEAT" and sp != ["set(280)"]:
+                ctx.violation("C04:5:status-then-call", "AirTouch 5 (cool 18..32, heat 16..28): the console reports mode HEAT%s on a congested link, %d loop passes later the application calls "
+                              "set_target_temperature(31.0): the AC control frames written read set-point %s; the limits of the reported mode admit 28.0 (set(280))" % (
+                                  " with error code 5" if err else "", passes, sp), kind="history", level="status-then-call", gen=5, passes=passes, err=err,
+                              implementation_output=str(sp), spec_verdict="['set(280)']")
+                return
 
 
 def concurrent(ctx):
